@@ -53,6 +53,7 @@ TEMPLATES = [
     ('/x/{a}-{b}', 'echo'), ('/x/{a}/y/{b:int(min=1)}', 'echo'), ('/long/literal/path', 'echo'),
     ('/e/{code:int}', 'error'), ('/ea/{code:int}', 'errorA'), ('/eb/{code:int}', 'errorB'), ('/m/{k}', 'media'), ('/items/{id}/detail/{d}', 'echo'),
     ('/v{ver:int}/r', 'echo'), ('/d/{when:dt("%Y-%m-%d")}', 'echo'), ('/f/{x:float}', 'echo'),
+    ('/fl/{x:flaky}', 'echo'), ('/static/{file}', 'static'),
 ]
 
 UUIDS = ['11111111-1111-1111-1111-111111111111', '22222222-2222-2222-2222-222222222222',
@@ -69,6 +70,7 @@ def path_for(tpl, k):
         '{k}': 'key%d' % k, '{d}': 'det%d' % k, '{ver:int}': str(1 + k),
         '{when:dt("%Y-%m-%d")}': ['2020-01-02', 'not-a-date', '2021-13-45'][k % 3],
         '{x:float}': ['1.5', 'nan-ish', '2e3'][k % 3],
+        '{x:flaky}': 'fl%d' % k, '{file}': ['a.txt', 'b.bin', 'c.dat'][k % 3],
     }
     for a, b in rep.items():
         t = t.replace(a, b)
@@ -88,7 +90,36 @@ def gen_plan(ch):
     reqs = []
     conv_routes = [i for i in routes if ':' in TEMPLATES[i][0]]
     same_route = None
-    if conv_routes and ch.draw(5, 'same_route_scenario') == 4:
+    scenario = ch.draw(7, 'scenario')
+    if scenario == 6:
+        # three overlapping downloads of different static files
+        si = [i for i, t in enumerate(TEMPLATES) if t[1] == 'static'][0]
+        if si not in routes:
+            routes.append(si)
+            routes.sort()
+        for k in range(3):
+            reqs.append({'route': si, 'path': path_for(TEMPLATES[si][0], ch.draw(3, 'file')), 'method': 'GET',
+                         'tag': 'tag%d' % k, 'ctype': None, 'accept': ACCEPTS[0], 'query': '', 'body': None})
+        return {'routes': routes, 'n_mw': n_mw, 'reqs': reqs,
+                'independent_mw': bool(ch.draw(2, 'independent_mw')), 'caches_full': False}
+    if scenario == 5:
+        # three media POSTs mixing JSON and form bodies: content-type resolution is shared state
+        mi = [i for i, t in enumerate(TEMPLATES) if t[1] == 'media'][0]
+        if mi not in routes:
+            routes.append(mi)
+            routes.sort()
+        for k in range(3):
+            form = ch.draw(2, 'form') == 1
+            tpl = TEMPLATES[mi][0]
+            body = ('req=%d&pad=%s' % (k, 'x' * ch.draw(6, 'pad'))) if form else \
+                json.dumps({'req': k, 'pad': 'x' * ch.draw(6, 'pad')})
+            reqs.append({'route': mi, 'path': path_for(tpl, k), 'method': 'POST', 'tag': 'tag%d' % k,
+                         'ctype': 'application/x-www-form-urlencoded' if form else 'application/json',
+                         'accept': ACCEPTS[0], 'query': 'q=%d&who=r%d' % (k, k), 'body': body})
+        return {'routes': routes, 'n_mw': n_mw, 'reqs': reqs,
+                'independent_mw': bool(ch.draw(2, 'independent_mw')),
+                'caches_full': bool(ch.draw(3, 'caches_full') == 2)}
+    if conv_routes and scenario == 4:
         # every request hits one converter-carrying route, with few distinct (possibly
         # malformed, possibly repeated) field values: converters must not remember anything
         same_route = conv_routes[ch.draw(len(conv_routes), 'which_route')]
@@ -113,13 +144,27 @@ def gen_plan(ch):
         path = path_for(tpl, ch.draw(3, 'path_variant') if ('dt(' in tpl or 'float' in tpl) else k) \
             if not miss else '/nope/%d' % k
         body = None
+        ctype = None
         if method == 'POST':
-            body = json.dumps({'req': k, 'pad': 'x' * ch.draw(20, 'pad')}).encode()
-        reqs.append({'route': r, 'path': path, 'method': method, 'tag': 'tag%d' % k,
+            if ch.draw(3, 'form_body') == 2:
+                ctype = 'application/x-www-form-urlencoded'
+                body = ('req=%d&pad=%s' % (k, 'x' * ch.draw(20, 'pad'))).encode()
+            else:
+                ctype = 'application/json'
+                body = json.dumps({'req': k, 'pad': 'x' * ch.draw(20, 'pad')}).encode()
+        reqs.append({'route': r, 'path': path, 'method': method, 'tag': 'tag%d' % k, 'ctype': ctype,
                      'accept': ACCEPTS[ch.weighted([4, 2, 2, 1, 1, 1], 'accept')],
                      'query': 'q=%d&who=r%d' % (k * 7, k), 'body': body.decode() if body else None})
-    return {'routes': routes, 'n_mw': n_mw, 'reqs': reqs,
-            'independent_mw': bool(ch.draw(2, 'independent_mw'))}
+    plan = {'routes': routes, 'n_mw': n_mw, 'reqs': reqs,
+            'independent_mw': bool(ch.draw(2, 'independent_mw')),
+            'caches_full': bool(ch.draw(3, 'caches_full') == 2)}
+    if ch.draw(6, 'flaky_converter_fault') == 5:
+        fi = [i for i, t in enumerate(TEMPLATES) if 'flaky' in t[0]][0]
+        if fi not in routes:
+            routes.append(fi)
+            routes.sort()
+        plan['flaky_fault'] = True
+    return plan
 
 
 # ---------------------------------------------------------------------------
@@ -150,6 +195,49 @@ def _observe(req, params, body):
     }
 
 
+import os as _os
+import falcon.routing as _frouting
+
+_STATIC_DIR = None
+STATIC_FILES = {'a.txt': b'AAAA-static-file-a-' * 7, 'b.bin': bytes(range(97, 123)) * 5, 'c.dat': b'c' * 40}
+
+
+def static_dir():
+    """A small immutable directory under the mirror (removed with it)."""
+    global _STATIC_DIR
+    if _STATIC_DIR is None:
+        d = _os.path.join(mirror.directory(), '_c19static')
+        if not _os.path.isdir(d):
+            tmp = d + '.tmp%d' % _os.getpid()
+            _os.makedirs(tmp, exist_ok=True)
+            for name, data in sorted(STATIC_FILES.items()):
+                with open(_os.path.join(tmp, name), 'wb') as f:
+                    f.write(data)
+                _os.utime(_os.path.join(tmp, name), (1500000000, 1500000000))
+            try:
+                _os.rename(tmp, d)
+            except OSError:
+                pass
+        _STATIC_DIR = d
+    return _STATIC_DIR
+
+
+class Flaky(_frouting.BaseConverter):
+    """A converter whose constructor fails once when the harness says so (injected fault:
+    'user callback raises', here during the lazy compilation of the router)."""
+    fail_next = False
+    failures = 0
+
+    def __init__(self):
+        if Flaky.fail_next:
+            Flaky.fail_next = False
+            Flaky.failures += 1
+            raise RuntimeError('converter construction failed (injected)')
+
+    def convert(self, value):
+        return value
+
+
 class ErrA(falcon.HTTPError):
     pass
 
@@ -159,7 +247,24 @@ class ErrB(falcon.HTTPError):
 
 
 HOT_FUNCS = ('_handle_exception', '_find_error_handler', '_compose_error_response', '_get_responder',
-             '_compile_and_find', 'find', '_http_error_handler')
+             '_compile_and_find', 'find', '_http_error_handler', '_resolve', 'resolve', 'get_media')
+CACHE_FILES = ('util/misc.py', 'util/mediatypes.py', 'media/handlers.py', 'asgi/request.py')
+
+
+def fill_caches(app):
+    """A long-running process has its bounded caches at capacity: every miss evicts."""
+    for c in range(300, 300 + 70):
+        try:
+            falcon.code_to_http_status(c)
+            falcon.http_status_to_code('%d Filler' % c)
+        except Exception:
+            pass
+    for hs in (app.req_options.media_handlers, app.resp_options.media_handlers):
+        for i in range(70):
+            try:
+                hs._resolve('application/x-filler-%d' % i, 'application/json', raise_not_found=False)
+            except Exception:
+                pass
 
 
 def build_app(plan, asgi, record, pause=None):
@@ -238,8 +343,12 @@ def build_app(plan, asgi, record, pause=None):
         resp.text = json.dumps({'route': ridx, 'obs': obs}, sort_keys=True)
         resp.set_header('X-Route', str(ridx))
 
+    app.router_options.converters['flaky'] = Flaky
     for ridx in plan['routes']:
         tpl, kind = TEMPLATES[ridx]
+        if kind == 'static':
+            app.add_static_route('/static', static_dir())
+            continue
         if asgi:
             class Res(object):
                 _k, _i = kind, ridx
@@ -292,7 +401,7 @@ def wsgi_request(ctx, app, r):
     env = make_environ(method=r['method'], path=r['path'], query=r['query'],
                        headers=[('X-Tag', r['tag']), ('Accept', r.get('accept', 'application/json'))],
                        body_input=io.BytesIO(body), content_length=len(body) if r['body'] is not None else None,
-                       content_type='application/json' if r['body'] is not None else None)
+                       content_type=(r.get('ctype') or 'application/json') if r['body'] is not None else None)
     ex = WsgiExchange(ctx)
     if ex.call(app, env):
         ex.consume()
@@ -311,6 +420,8 @@ def run_threads(ctx, plan):
         compiled_mod.Lock = sim.make_lock
         try:
             app = build_app(plan, False, record)
+            if plan.get('caches_full'):
+                fill_caches(app)
             if variant == 1:
                 class _R(object):
                     def on_get(self, req, resp):
@@ -349,13 +460,15 @@ def run_threads(ctx, plan):
         locs = solo_locs[t]
         if not locs:
             continue
-        zone = ch.weighted([3, 4, 3, 3], 'preempt_zone')  # 0 lock boundary, 1 router, 2 anywhere, 3 hot functions
+        zone = ch.weighted([3, 4, 3, 3, 3], 'preempt_zone')  # 0 lock boundary, 1 router, 2 anywhere, 3 hot functions, 4 cache modules
         if zone == 0:
             cand = [i for i, x in enumerate(locs) if x[0] == '<lock>']
         elif zone == 1:
             cand = [i for i, x in enumerate(locs) if x[0] == '<string>' or x[0].endswith('routing/compiled.py')]
         elif zone == 3:
             cand = [i for i, x in enumerate(locs) if x[2] in HOT_FUNCS]
+        elif zone == 4:
+            cand = [i for i, x in enumerate(locs) if x[0].endswith(CACHE_FILES)]
         else:
             cand = None
         if cand:
@@ -371,7 +484,16 @@ def run_threads(ctx, plan):
     reset_falcon_caches()
     sim = ThreadSim(ch, prefixes, triggers=triggers, max_events=20000 + total_events * 4)
     app = fresh(sim, rec)
-    res, errs = sim.run([lambda r=r: wsgi_request(ctx, app, r) for r in reqs])
+    Flaky.failures = 0
+    Flaky.fail_next = bool(plan.get('flaky_fault'))
+    try:
+        res, errs = sim.run([lambda r=r: wsgi_request(ctx, app, r) for r in reqs])
+    finally:
+        Flaky.fail_next = False
+    fault_fired = Flaky.failures > 0
+    if fault_fired:
+        ctx.ch.note_fired('converter_ctor_raises')
+    excused = [0]
     pts = chosen
     ctx.steps = sim.events
     ctx.sched_key = 'T%d:%s' % (variant, sim.trace)
@@ -404,6 +526,9 @@ def run_threads(ctx, plan):
             continue
         for oid, msg in got[3]:
             ctx.violate(oid, msg)
+        if fault_fired and got[:3] != want[:3] and str(got[0]).startswith('500') and not excused[0]:
+            excused[0] = 1      # the one request that hit the injected converter failure may answer 500
+            continue
         if got[:3] != want[:3]:
             ctx.violate('conc.threads.response', 'request %d (%s %s) got %r, solo run gives %r '
                         '(switches at %s)' % (i, r['method'], r['path'], got[:3], want[:3], sites))
@@ -455,7 +580,7 @@ class _SimRef(object):
         self.ctx.probe(name)
 
 
-def asgi_exchange(ctx, plan, reqs, concurrent):
+def asgi_exchange(ctx, plan, reqs, concurrent, arm_flaky=False):
     """Run the given requests on one fresh app, one task each. Returns list of
     (status, headers, body, monitor violations) and the observation record."""
     ch = ctx.ch
@@ -473,12 +598,15 @@ def asgi_exchange(ctx, plan, reqs, concurrent):
         await f
 
     app = build_app(plan, True, record, pause)
+    if plan.get('caches_full'):
+        fill_caches(app)
+    Flaky.fail_next = arm_flaky       # armed only after the routes were added (add_route validates converters)
     conns = []
     for r in reqs:
         hdrs = [('X-Tag', r['tag']), ('Accept', r.get('accept', 'application/json')), ('Host', 'sim')]
         body = r['body'].encode() if r['body'] is not None else None
         if body is not None:
-            hdrs += [('Content-Type', 'application/json'), ('Content-Length', str(len(body)))]
+            hdrs += [('Content-Type', r.get('ctype') or 'application/json'), ('Content-Length', str(len(body)))]
             k = ch.draw(3, 'chunks') + 1 if concurrent else 1
             cuts = sorted(set(ch.draw(len(body) + 1, 'cut') for _ in range(k - 1)))
             parts = [body[a:b] for a, b in zip([0] + cuts, cuts + [len(body)])]
@@ -536,7 +664,15 @@ def run_tasks(ctx, plan):
             return
         base.append((out[0], rec.get(r['tag'])))
     reset_falcon_caches()
-    out, rec, fin, steps, sig = asgi_exchange(ctx, plan, reqs, True)
+    Flaky.failures = 0
+    try:
+        out, rec, fin, steps, sig = asgi_exchange(ctx, plan, reqs, True, arm_flaky=bool(plan.get('flaky_fault')))
+    finally:
+        Flaky.fail_next = False
+    fault_fired = Flaky.failures > 0
+    if fault_fired:
+        ctx.ch.note_fired('converter_ctor_raises')
+    excused = [0]
     ctx.steps = steps
     ctx.sched_key = 'A:' + sig
     ctx.event('tasks', sig)
@@ -557,6 +693,9 @@ def run_tasks(ctx, plan):
             ctx.violate(oid, msg)
         if got[4] != 'done':
             ctx.violate('conc.tasks.response', 'request %d: response not finished (%s)' % (i, got[4]))
+        if fault_fired and got[:3] != want[:3] and got[0] == 500 and not excused[0]:
+            excused[0] = 1
+            continue
         if got[:3] != want[:3]:
             ctx.violate('conc.tasks.response', 'request %d (%s %s) got %r, solo run gives %r' % (
                 i, r['method'], r['path'], got[:3], want[:3]))
